@@ -1,6 +1,7 @@
 package main
 
 import (
+	"go/token"
 	_ "embed"
 	"fmt"
 	"sort"
@@ -238,6 +239,14 @@ func collectRejections(P *Program, fn *ssa.Function, depth int, seenFn map[strin
 			// `return x, f(...)`: the callee's own reasons
 			if c, _ := callAndResult(ev); c != nil {
 				if _, isMI := ev.(*ssa.MakeInterface); !isMI && descend(ev) {
+					continue
+				}
+			}
+			// `return x, obj.err`: a stored error handed on as it is rejects exactly when it is set
+			if u, isLoad := ev.(*ssa.UnOp); isLoad && u.Op == token.MUL {
+				if _, isField := u.X.(*ssa.FieldAddr); isField {
+					n++
+					*out = append(*out, rejReason{"err", desc(ev), "[" + desc(ev) + " returned]", P.Pos(r.Pos()), FuncKey(fn)})
 					continue
 				}
 			}
